@@ -5,6 +5,7 @@ import (
 	"fmt"
 	"net"
 	"net/http"
+	"net/netip"
 	"strings"
 )
 
@@ -92,8 +93,11 @@ func AllowedDomainRedirectPolicy(hosts ...string) RedirectPolicy {
 }
 
 func getHostname(host string) (hostname string) {
-	if strings.Index(host, ":") > 0 {
-		host, _, _ = net.SplitHostPort(host)
+	if h, _, err := net.SplitHostPort(host); err == nil {
+		host = h
+	} else if len(host) >= 2 && host[0] == '[' && host[len(host)-1] == ']' {
+		// bracketed IPv6 literal without port
+		host = host[1 : len(host)-1]
 	}
 	hostname = strings.ToLower(host)
 	return
@@ -101,6 +105,10 @@ func getHostname(host string) (hostname string) {
 
 func getDomain(host string) string {
 	host = getHostname(host)
+	if _, err := netip.ParseAddr(host); err == nil {
+		// IP literals are compared as whole addresses
+		return host
+	}
 	ss := strings.Split(host, ".")
 	if len(ss) < 3 {
 		return host
